@@ -59,6 +59,15 @@ class Builder:
         a.term_f = a.f
         return a
 
+    def struct_arr(self, name, fields, n=None):
+        """1-d structured array (one column Arr per field, common length)"""
+        if n is None:
+            n = z3.Int(name + '.n')
+            self.ctx.assume(n >= 0)
+        a = Arr((n,), lambda ix: None, dict(fields), label=name)
+        a.fields = {fn: self.arr('%s.%s' % (name, fn), dt, n=n) for fn, dt in fields.items()}
+        return a
+
     def arr2(self, name, dtype='float64', shape=None):
         if shape is None:
             n0, n1 = z3.Int(name + '.n0'), z3.Int(name + '.n1')
@@ -95,6 +104,10 @@ class Builder:
 
     def fact(self, f):
         self.ctx.fact(f)
+
+    def calls(self, qualname):
+        """modular calls made so far on this path: list of (case, args, result)"""
+        return [(cs, loc, r) for q, cs, loc, r in self.ctx.ghost.get('calls', []) if q == qualname]
 
     def inline(self, qualname, *args, **kwargs):
         """execute the real body of a repository function (paths fork as usual)"""
@@ -156,6 +169,11 @@ class LoopInv:
     def inv(self, I, fr, i, it):
         return ()
 
+    def step_lemmas(self, I, fr, i, it):
+        """instances of lemma-library facts (e.g. the unfolding CNT(B, i+1) = CNT(B, i) + [B i]) needed
+        to carry the invariant from i to i+1"""
+        return ()
+
 
 class Registry:
     def __init__(self):
@@ -203,9 +221,20 @@ class ContractUse:
             cp = Builder(interp, 'prove')
             for k, g in enumerate(_list(case, 'requires', cp, **loc)):
                 ctx.oblige('call:%s.requires[%d]' % (self.qualname, k), g, kind='callpre')
+            # exceptional exit of the callee (its contract says when): fork
+            mr = getattr(case, 'may_raise', None)
+            if mr is not None:
+                exc_cls, cond = mr(c, **loc)
+                b = ctx.fresh_bool('callee_raises')
+                if cond is not None:
+                    ctx.assume(z3.Implies(b, cond))
+                if ctx.branch(b):
+                    ctx.ghost['raised_by_contract'] = self.qualname
+                    raise PyRaise(exc_cls, 'raised by callee contract')
             r = case.result(c, **loc)
             for nm, g in _pairs(case, 'ensures', c, r, **loc):
                 ctx.assume(g)
+            ctx.ghost.setdefault('calls', []).append((self.qualname, case, loc, r))
             return r
         return NotImplemented
 
